@@ -113,7 +113,8 @@ func run(c *hc.Ctx) {
 		if !ok {
 			continue
 		}
-		open := strings.Count(P.String(), "M") != strings.Count(P.String(), "z")
+		openPath := strings.Count(P.String(), "M") != strings.Count(P.String(), "z")
+		missing := missingClosings(P)
 		var pts []hc.P2
 		for k := 0; k < 30; k++ {
 			var pt hc.P2
@@ -138,6 +139,8 @@ func run(c *hc.Ctx) {
 			c.Evals++
 			var w, cr int
 			var bd, bd2 bool
+			// cause predicate of the open-subpath finding: the ray meets the missing closing segment
+			open := rayMeetsMissingClose(pt, missing)
 			msg := hc.Try(func() {
 				w, bd = P.Windings(pt.X, pt.Y)
 				cr, bd2 = P.Crossings(pt.X, pt.Y)
@@ -160,9 +163,12 @@ func run(c *hc.Ctx) {
 				}
 				continue
 			}
-			if !far || illConditioned(pt, cs) {
+			if !far {
 				c.Count("point-in-band")
 				continue
+			}
+			if illConditioned(pt, cs) {
+				c.Count("query-near-level-vertex") // judged since 84dad99 (was skipped)
 			}
 			if bd || bd2 {
 				c.Fail("boundary-reported-off-boundary", fmt.Sprintf("point (%v,%v) is %.3g away from the path but reported as boundary", pt.X, pt.Y, hc.DistToContours(pt, cs)),
@@ -173,7 +179,14 @@ func run(c *hc.Ctx) {
 			if wf := hc.WnFloat(pt, cs); wf != w && c.Tier == "search" {
 				c.Fail("windings-flat:windings"+flatClass(pt, cs, open), fmt.Sprintf("Windings(%v,%v)=%d but the winding number is %d", pt.X, pt.Y, w, wf), map[string]any{"P": P.String(), "point": []float64{pt.X, pt.Y}})
 			}
-			if cn := crossingsFloat(pt, cs); cn >= 0 && cn != cr {
+			if cn := crossingsFloat(pt, cs); cn >= 0 && illConditioned(pt, cs) {
+				// a vertex within Epsilon of the ray counts as lying on it (84dad99): the exact count of
+				// the unsnapped polygon may differ by a touch (2), the parity may not
+				c.Count("crossings-near-level: parity only")
+				if (cn-cr)%2 != 0 {
+					c.Fail("crossings-flat+near-level", fmt.Sprintf("Crossings(%v,%v)=%d but the ray crosses the boundary %d times (parity differs)", pt.X, pt.Y, cr, cn), map[string]any{"P": P.String(), "point": []float64{pt.X, pt.Y}})
+				}
+			} else if cn >= 0 && cn != cr {
 				osf := ""
 				if open {
 					osf = "+open"
@@ -188,6 +201,9 @@ func run(c *hc.Ctx) {
 				}
 			}
 			cl := flatClass(pt, cs, open)
+			if illConditioned(pt, cs) {
+				cl = "+near-level" + cl
+			}
 			g := groups[cl]
 			if g == nil {
 				g = &struct {
@@ -216,7 +232,7 @@ func run(c *hc.Ctx) {
 			line := fmt.Sprintf("REGION wind %s P %s PTS %s W %s", hc.H(band), hc.PolyTokens(cs), hc.PtsTokens(g.pts), strings.Join(g.ws, " "))
 			c.Case(line, "!", "windings-flat"+sfx)
 			c.Distinct(P.String())
-			c.Count(fmt.Sprintf("flat class:%d open:%v", class, open))
+			c.Count(fmt.Sprintf("flat class:%d open:%v", class, openPath))
 			if it == 0 && cl == "" {
 				c.Sample(fmt.Sprintf("Windings of %q at %v -> %v", P.String(), g.pts[:1], g.ws[:1]))
 			}
@@ -225,7 +241,7 @@ func run(c *hc.Ctx) {
 		ct := cs[c.Intn(len(cs))]
 		i := c.Intn(len(ct))
 		a, b := ct[i], ct[(i+1)%len(ct)]
-		if !open || i+1 < len(ct) {
+		if !openPath || i+1 < len(ct) {
 			mid := hc.P2{X: (a.X + b.X) / 2, Y: (a.Y + b.Y) / 2}
 			if a != b && (mid.X-a.X)*(b.Y-a.Y) == (mid.Y-a.Y)*(b.X-a.X) { // exactly on the segment in float64
 				var bd bool
@@ -248,10 +264,7 @@ func run(c *hc.Ctx) {
 			}
 			P = P.Append(sp)
 		}
-		osfx := ""
-		if openIn && strings.Count(P.String(), "M") != strings.Count(P.String(), "z") {
-			osfx = "+open"
-		}
+		missing := missingClosings(P)
 		segs, err := hc.Decode(P.Data())
 		if err != nil {
 			continue
@@ -288,11 +301,19 @@ func run(c *hc.Ctx) {
 				continue
 			}
 			// cause class: the ray is exactly level with a segment end point to its right
-			osfx := osfx
+			osfx := ""
+			if rayMeetsMissingClose(pt, missing) {
+				osfx = "+open"
+			}
 			for _, sg := range segs {
 				if sg.End.Y == pt.Y && sg.End.X >= pt.X {
 					osfx = "+level-with-endpoint" + osfx
 					c.Count("curved-query-level-with-endpoint")
+					if tangentInLevelEndpoint(pt, segs) {
+						// residue of 4ad4af8: the curve is tangent to the ray in the end point on the ray
+						osfx = "+level-with-endpoint+tangent-in-endpoint" + strings.TrimPrefix(osfx, "+level-with-endpoint")
+						c.Count("curved-query-tangent-in-level-endpoint")
+					}
 					break
 				}
 			}
@@ -330,6 +351,14 @@ func run(c *hc.Ctx) {
 	// 3b. rays exactly tangent to the inside of a curved segment (regression class of b6be64d): domes
 	//     whose Bézier has its y-extremum at t = 1/2 at an exactly representable height
 	runTangent(c)
+
+	// 2b. flat polygons with a vertex a tiny distance off the ray (regression class of 84dad99: a vertex
+	//     within Epsilon of the ray lies on it for both adjoining segments)
+	runNearLevel(c)
+
+	// 3d. one integer cubic (or quad) closed by a line, ray exactly level with an end point of the
+	//     curve (regression class of 4ad4af8: the end point's root is divided out, not computed)
+	runLevelEndpoint(c)
 
 	// 3c. recorded inputs of repaired curve defects (regression corpus)
 	runCorpus(c)
@@ -398,6 +427,21 @@ func run(c *hc.Ctx) {
 		}
 		fo, _ := hc.Contours(outer.Flatten(0.001))
 		area = hc.Area(fo[0])
+		// construction check, independent of the library: the inner contour lies strictly inside the
+		// outer one (a scaled copy of a notched blob about its vertex centroid need not)
+		if fiChk, _ := hc.Contours(inner.Flatten(0.001)); len(fiChk) == 1 {
+			inside := true
+			for _, v := range fiChk[0] {
+				if hc.WnFloat(v, fo) == 0 || hc.DistToContours(v, fo) < 1e-3 {
+					inside = false
+					break
+				}
+			}
+			if !inside {
+				c.Count("filling:construction-rejected")
+				continue
+			}
+		}
 		both := outer.Copy().Append(inner)
 		for rule := 0; rule < 4; rule++ {
 			var f []bool
@@ -838,4 +882,206 @@ func runCorpus(c *hc.Ctx) {
 		}
 		c.Count("corpus curved" + sfx)
 	}
+}
+
+// missingClosings: for every subpath that does not end in Close, the segment from its last point to
+// its first point (which Windings/Crossings/Contains do not intersect with the ray).
+func missingClosings(P *canvas.Path) [][2]hc.P2 {
+	segs, err := hc.Decode(P.Data())
+	if err != nil {
+		return nil
+	}
+	var out [][2]hc.P2
+	for _, sp := range hc.Subpaths(segs) {
+		if len(sp) < 2 || sp[len(sp)-1].Kind == 'Z' {
+			continue
+		}
+		first, last := sp[0].End, sp[len(sp)-1].End
+		if first != last {
+			out = append(out, [2]hc.P2{last, first})
+		}
+	}
+	return out
+}
+
+// rayMeetsMissingClose: the ray from p towards +x meets one of the missing closing segments
+func rayMeetsMissingClose(p hc.P2, missing [][2]hc.P2) bool {
+	for _, m := range missing {
+		a, b := m[0], m[1]
+		if p.Y < math.Min(a.Y, b.Y)-1e-9 || p.Y > math.Max(a.Y, b.Y)+1e-9 {
+			continue
+		}
+		if a.Y == b.Y {
+			if math.Max(a.X, b.X) >= p.X-1e-9 {
+				return true
+			}
+			continue
+		}
+		x := a.X + (p.Y-a.Y)/(b.Y-a.Y)*(b.X-a.X)
+		if x >= p.X-1e-9 {
+			return true
+		}
+	}
+	return false
+}
+
+// tangentInLevelEndpoint: a curved segment has an end point on the ray (to the right of p) and is
+// tangent to the ray there (Bézier: the adjacent control point is level with the end point; arcs:
+// numerically).
+func tangentInLevelEndpoint(p hc.P2, segs []hc.Seg) bool {
+	flat := func(a, b hc.P2) bool {
+		d := b.Sub(a)
+		return d.Len() > 0 && math.Abs(d.Y) <= 1e-5*d.Len()
+	}
+	for _, sg := range segs {
+		var at0, at1 bool
+		switch sg.Kind {
+		case 'Q':
+			at0, at1 = sg.P1.Y == sg.P0.Y, sg.P1.Y == sg.End.Y
+		case 'C':
+			at0, at1 = sg.P1.Y == sg.P0.Y, sg.P2.Y == sg.End.Y
+		case 'A':
+			at0, at1 = flat(sg.At(0), sg.At(1e-7)), flat(sg.At(1-1e-7), sg.At(1))
+		default:
+			continue
+		}
+		if sg.P0.Y == p.Y && sg.P0.X >= p.X && at0 {
+			return true
+		}
+		if sg.End.Y == p.Y && sg.End.X >= p.X && at1 {
+			return true
+		}
+	}
+	return false
+}
+
+func runLevelEndpoint(c *hc.Ctx) {
+	g := func() float64 { return float64(c.Intn(13) - 6) }
+	for it := 0; it < c.N; it++ {
+		P := &canvas.Path{}
+		P.MoveTo(g(), g())
+		if c.Chance(0.8) {
+			P.CubeTo(g(), g(), g(), g(), g(), g())
+		} else {
+			P.QuadTo(g(), g(), g(), g())
+		}
+		if c.Chance(0.3) {
+			P.LineTo(g(), g())
+		}
+		P.Close()
+		segs, err := hc.Decode(P.Data())
+		if err != nil {
+			continue
+		}
+		var ct []hc.P2
+		var ends []hc.P2
+		for _, sg := range segs {
+			switch sg.Kind {
+			case 'M', 'L', 'Z':
+				ct = append(ct, sg.End)
+			default:
+				ct = append(ct, hc.SampleSeg(sg, 400)[1:]...)
+				ends = append(ends, sg.P0, sg.End)
+			}
+		}
+		if len(ends) == 0 {
+			continue
+		}
+		if len(ct) > 1 && ct[0] == ct[len(ct)-1] {
+			ct = ct[:len(ct)-1]
+		}
+		cs := [][]hc.P2{ct}
+		for _, e := range ends {
+			pt := hc.P2{X: -7.5 - float64(c.Intn(3)), Y: e.Y}
+			if hc.DistToContours(pt, cs) < 1e-3 {
+				continue
+			}
+			sfx := "+level-with-endpoint"
+			if tangentInLevelEndpoint(pt, segs) {
+				sfx += "+tangent-in-endpoint"
+				c.Count("curved-query-tangent-in-level-endpoint")
+			}
+			c.Evals++
+			var w int
+			var bd bool
+			if msg := hc.Try(func() { w, bd = P.Windings(pt.X, pt.Y) }); msg != "" {
+				c.Fail("panic:Windings-curved"+sfx, "Windings panicked: "+firstLine(msg), map[string]any{"P": P.String(), "point": []float64{pt.X, pt.Y}})
+				continue
+			}
+			if wf := hc.WnFloat(pt, cs); bd || w != wf {
+				c.Fail("windings-curved"+sfx, fmt.Sprintf("Windings(%v,%v)=%d boundary=%v but the winding number of a 400-step flattening is %d (ray level with an end point of the curve)", pt.X, pt.Y, w, bd, wf), map[string]any{"P": P.String(), "point": []float64{pt.X, pt.Y}})
+			}
+			c.Count("level-endpoint query")
+		}
+		c.Distinct(P.String())
+	}
+}
+
+func runNearLevel(c *hc.Ctx) {
+	judge := func(P *canvas.Path, cs [][]hc.P2, pt hc.P2) {
+		if hc.DistToContours(pt, cs) < 1e-3 {
+			return
+		}
+		c.Evals++
+		var w int
+		var bd bool
+		if msg := hc.Try(func() { w, bd = P.Windings(pt.X, pt.Y) }); msg != "" {
+			c.Fail("panic:Windings:"+firstLine(msg)+"+near-level", "Windings panicked: "+firstLine(msg), map[string]any{"P": P.String(), "point": []float64{pt.X, pt.Y}})
+			return
+		}
+		// the point is far from the path: the winding number of the exact polygon is the answer
+		if wf := hc.WnFloat(pt, cs); bd || w != wf {
+			c.Fail("windings-flat:windings+near-level", fmt.Sprintf("Windings(%v,%v)=%d boundary=%v but the winding number is %d (a vertex lies %.3g off the ray)", pt.X, pt.Y, w, bd, wf, nearestLevel(pt, cs)), map[string]any{"P": P.String(), "point": []float64{pt.X, pt.Y}})
+		}
+		c.Count("near-level query")
+	}
+	// the recorded minimal inputs
+	for _, tc := range []struct {
+		p    string
+		x, y float64
+	}{
+		{"M-2 -6L-2 0L-1 -3z", -3.5, -3 + 1e-12},
+		{"M-2 -6L-2 -3L-1 0z", -3.5, -3e-10},
+		{"M0 -1L1 0L0 1L5 1L5 -1z", -1, -1e-10},
+		{"M-2 2.0000000000000004L-3.6739403974420544e-16 0L2 1.9999999999999996L6.123233995736757e-16 4z", -3, 1.9999999999999996},
+	} {
+		P := canvas.MustParseSVGPath(tc.p)
+		cs, ok := hc.Contours(P)
+		if ok {
+			judge(P, cs, hc.P2{X: tc.x, Y: tc.y})
+		}
+	}
+	for it := 0; it < c.N; it++ {
+		var pool []hc.P2
+		P := c.GenPolygon([]int{0, 0, 3}[c.Intn(3)], &pool, true)
+		cs, ok := hc.Contours(P)
+		if !ok || len(cs) == 0 || len(cs[0]) == 0 {
+			continue
+		}
+		for k := 0; k < 6; k++ {
+			ct := cs[c.Intn(len(cs))]
+			if len(ct) == 0 {
+				continue
+			}
+			v := ct[c.Intn(len(ct))]
+			d := []float64{1e-12, 3e-11, 1e-10, 3e-10, 1e-13, 2e-16 * math.Max(1, math.Abs(v.Y))}[c.Intn(6)]
+			if c.Bool() {
+				d = -d
+			}
+			judge(P, cs, hc.P2{X: v.X - float64(1+c.Intn(6)) + 0.5, Y: v.Y + d})
+		}
+		c.Distinct(P.String())
+	}
+}
+
+func nearestLevel(p hc.P2, cs [][]hc.P2) float64 {
+	best := math.Inf(1)
+	for _, ct := range cs {
+		for _, v := range ct {
+			if d := math.Abs(v.Y - p.Y); d < best && v.X >= p.X {
+				best = d
+			}
+		}
+	}
+	return best
 }
